@@ -174,8 +174,34 @@ def run_property(pid, tier='quick', seed=0):
         witnesses[sname] = 'exhibited' if okw else 'NOT exhibited'
         if not okw:
             errors.append(('stub:' + sname, 'the declared outcomes of this trusted stub could not be exhibited natively'))
-    # named-obligation guard against vacuity
+    # the callable interface of every function under contract is the recorded one (an added trailing optional parameter
+    # is compatible; a renamed, reordered or removed parameter, a changed default or a dropped *args/**kwargs is not)
     exp_path = os.path.join(HERE, 'obligations', pid + '.json')
+    sig_now = {}
+    for r in results:
+        if getattr(r, 'signature', None) is not None:
+            sig_now[r.qual] = r.signature
+    sig_rec = json.load(open(exp_path)).get('signatures', {}) if os.path.exists(exp_path) else {}
+    from pyvc.verify import ObResult as _Ob
+
+    def _sig_compatible(old, new):
+        if old['vararg'] != new['vararg'] or old['kwarg'] != new['kwarg']:
+            return False
+        if new['params'][:len(old['params'])] != old['params']:
+            return False
+        if any(d is None for _n, d in new['params'][len(old['params']):]):
+            return False
+        return all(k in new['kwonly'] for k in old['kwonly']) and \
+            all(d is not None for k, d in new['kwonly'] if [k, d] not in old['kwonly'])
+    if os.environ.get('VERIF_RECORD') != '1':
+        for q in sorted(sig_now):
+            if q in sig_rec:
+                okc = _sig_compatible(sig_rec[q], sig_now[q])
+                o = _Ob('%s/signature:parameters-and-defaults-as-recorded' % q, 'signature', 'proved' if okc else 'refuted', 0.0,
+                        backend='syntactic comparison with obligations/%s.json' % pid,
+                        reason='' if okc else 'recorded %s, now %s' % (json.dumps(sig_rec[q]), json.dumps(sig_now[q])))
+                all_obs.append((q, o))
+    # named-obligation guard against vacuity
     have = {}
     for q, o in all_obs:
         have.setdefault(strip_name(o.name), []).append(o.status)
@@ -191,7 +217,8 @@ def run_property(pid, tier='quick', seed=0):
     if os.environ.get('VERIF_RECORD') == '1':
         os.makedirs(os.path.join(HERE, 'obligations'), exist_ok=True)
         names = sorted(n for n, sts in have.items() if all(s == 'proved' for s in sts))
-        json.dump({'property': pid, 'names': names}, open(exp_path, 'w'), indent=1)
+        names = sorted(set(names) | {'%s/signature:parameters-and-defaults-as-recorded' % q for q in sig_now})
+        json.dump({'property': pid, 'names': names, 'signatures': sig_now}, open(exp_path, 'w'), indent=1)
     # ------------------------------------------------------------------ bounded stand-ins
     bounded = []
     for (m, n) in prop.bounded:
